@@ -64,6 +64,83 @@ theorem listElems_single (x : Bytes) (hc : ',' ∉ x) (ho : ∀ ch ∈ x, isOWS 
   simp [trimOWS_clean x ho]
 
 
+/-! ### trimming a whole list-valued header does not change its elements -/
+
+theorem headB_cons (a : Bytes) (l : List Bytes) : (a :: l).head! = a := rfl
+
+theorem trimOWS_cons_ows (c : Char) (s : Bytes) (hc : isOWS c = true) : trimOWS (c :: s) = trimOWS s := by
+  unfold trimOWS
+  simp [List.dropWhile_cons, hc]
+
+theorem trimOWS_append_ows (s : Bytes) (c : Char) (hc : isOWS c = true) : trimOWS (s ++ [c]) = trimOWS s := by
+  induction s with
+  | nil => simp [trimOWS, List.dropWhile_cons, hc]
+  | cons x t ih =>
+    by_cases hx : isOWS x = true
+    · rw [List.cons_append, trimOWS_cons_ows x _ hx, trimOWS_cons_ows x _ hx, ih]
+    · unfold trimOWS
+      simp [List.dropWhile_cons, hx, hc]
+
+theorem ows_ne_comma {c : Char} (hc : isOWS c = true) : c ≠ ',' := by
+  intro e
+  subst e
+  revert hc
+  decide
+
+theorem listElems_cons_ows (c : Char) (t : Bytes) (hc : isOWS c = true) : listElems (c :: t) = listElems t := by
+  unfold listElems
+  rw [splitOn_cons_ne ',' c t (ows_ne_comma hc)]
+  cases hs : splitOn ',' t with
+  | nil => exact absurd hs (splitOn_ne_nil ',' t)
+  | cons h r => simp [headB_cons, trimOWS_cons_ows c h hc]
+
+/-- appending one character extends the last piece -/
+theorem splitOn_snoc (sep c : Char) (hc : c ≠ sep) (t : Bytes) :
+    ∃ init last, splitOn sep t = init ++ [last] ∧ splitOn sep (t ++ [c]) = init ++ [last ++ [c]] := by
+  induction t with
+  | nil =>
+    refine ⟨[], [], rfl, ?_⟩
+    simp [splitOn, hc]
+  | cons x t ih =>
+    obtain ⟨init, last, h1, h2⟩ := ih
+    by_cases hx : x = sep
+    · subst hx
+      refine ⟨[] :: init, last, ?_, ?_⟩
+      · simp [splitOn, h1]
+      · simp [splitOn, h2]
+    · rw [List.cons_append, splitOn_cons_ne sep x _ hx, splitOn_cons_ne sep x _ hx, h1, h2]
+      cases init with
+      | nil => exact ⟨[], x :: last, by simp [headB_cons], by simp [headB_cons]⟩
+      | cons i is => exact ⟨(x :: i) :: is, last, by simp [headB_cons], by simp [headB_cons]⟩
+
+theorem listElems_snoc_ows (t : Bytes) (c : Char) (hc : isOWS c = true) : listElems (t ++ [c]) = listElems t := by
+  obtain ⟨init, last, h1, h2⟩ := splitOn_snoc ',' c (ows_ne_comma hc) t
+  unfold listElems
+  rw [h1, h2]
+  simp [trimOWS_append_ows last c hc]
+
+theorem listElems_dropWhile (v : Bytes) : listElems (v.dropWhile isOWS) = listElems v := by
+  induction v with
+  | nil => rfl
+  | cons c t ih =>
+    by_cases hc : isOWS c = true
+    · rw [List.dropWhile_cons, if_pos hc, ih, listElems_cons_ows c t hc]
+    · simp [List.dropWhile_cons, hc]
+
+theorem listElems_dropWhile_reverse (r : Bytes) : listElems (r.dropWhile isOWS).reverse = listElems r.reverse := by
+  induction r with
+  | nil => rfl
+  | cons c t ih =>
+    by_cases hc : isOWS c = true
+    · rw [List.dropWhile_cons, if_pos hc, ih, List.reverse_cons, listElems_snoc_ows _ c hc]
+    · simp [List.dropWhile_cons, hc]
+
+/-- the elements of a list-valued header do not depend on blanks around the whole value -/
+theorem listElems_trimOWS (v : Bytes) : listElems (trimOWS v) = listElems v := by
+  unfold trimOWS
+  rw [listElems_dropWhile_reverse, List.reverse_reverse, listElems_dropWhile]
+
+
 /-- a string that can be appended as one element to a list-valued header -/
 def elemOK (s : Bytes) : Prop := ',' ∉ s ∧ ∀ ch ∈ s, isOWS ch = false
 
